@@ -434,7 +434,7 @@ def main():
     chk = Check("C07", "translation_validation")
     chk.module = "symg.check_c07"
     cases = gen_cases(chk.tier, chk.seed)
-    timeout_s = 90 if chk.tier == "quick" else 600
+    timeout_s = 150 if chk.tier == "quick" else 600
     drv.build()
     results = drv.run_jobs([build_job(c) for c in cases])
     outs = pool_map(analyze, [(c, r, timeout_s) for c, r in zip(cases, results)])
